@@ -47,6 +47,9 @@ def main():
         d = os.path.join(ROOT, "seeded", name)
         meta = json.load(open(os.path.join(d, "meta.json")))
         props = meta.get("checks") or [meta["property"]]
+        if meta.get("obsolete"):
+            print("%-28s OBSOLETE (%s)" % (name, meta["obsolete"]["since"]))
+            continue
         wt = os.path.join(SCR, "repo_" + name)
         sh(["git", "-C", "/repo", "worktree", "remove", "--force", wt])
         r = sh(["git", "-C", "/repo", "worktree", "add", "--detach", wt, "HEAD"])
